@@ -597,8 +597,8 @@ def denoteAttr (c : DCtx) (isComp : Bool) (tagN : Node) (allAttrs : List Node) (
         | .mk .ident as ks => { acc with vslots := some (.mk .ident as ks) }
         | .mk .object as ks => { acc with vslots := some (.mk .object as ks) }
         | _ => acc
-      else if d.name == "html" then addProp c (if d.ood then addFeat acc "ood-directive-value" else acc) "innerHTML" d.value
-      else if d.name == "text" then addProp c (if d.ood then addFeat acc "ood-directive-value" else acc) "textContent" d.value
+      else if d.name == "html" then addProp c (addFeat (if d.ood then addFeat acc "ood-directive-value" else acc) "has-vhtml-vtext") "innerHTML" d.value
+      else if d.name == "text" then addProp c (addFeat (if d.ood then addFeat acc "ood-directive-value" else acc) "has-vhtml-vtext") "textContent" d.value
       else if d.name == "model" then
         let acc := addFeat acc "has-vmodel"
         let acc := if d.ood then addFeat acc "ood-directive-value" else acc
